@@ -709,26 +709,35 @@ class CextProxy:
         if not isinstance(pid, int) or isinstance(pid, bool):
             raise HarnessError(f"{what}: non-concrete pid {pid!r}")
         if pid not in self.k.procs:
-            raise oserr(errno.ESRCH)
+            # the per-task system calls (setpriority, ioprio_set, sched_setaffinity) accept a THREAD id as well: it then acts on that
+            # thread alone; recorded as a delivery to that id (which is not the process the caller named)
+            if not any(str(pid) in self.k.dirs.get(f"/proc/{p_}/task", ()) for p_ in self.k.procs):
+                raise oserr(errno.ESRCH)
+            self.k.deliveries.append((what, pid, args))
+            return False
         if pid in getattr(self.k, "denied", ()):
             raise oserr(errno.EPERM)
         self.k.deliveries.append((what, pid, args))
+        return True
 
     def setpriority(self, pid, value):
         pid = self._who(pid)
-        self._deliver("setpriority", pid, value)
+        if not self._deliver("setpriority", pid, value):
+            return
         self.k.settings[pid]["nice"] = self.k.clamp(value, -20, 19)
 
     def proc_ioprio_set(self, pid, ioclass, value):
         pid = self._who(pid)
-        self._deliver("ioprio_set", pid, ioclass, value)
+        if not self._deliver("ioprio_set", pid, ioclass, value):
+            return
         if _decide((ioclass < 0) | (ioclass > 3)) if isinstance(ioclass, SymInt) else not 0 <= ioclass <= 3:
             raise oserr(errno.EINVAL)
         self.k.settings[pid]["ioprio"] = (ioclass, value)
 
     def proc_cpu_affinity_set(self, pid, cpus):
         pid = self._who(pid)
-        self._deliver("sched_setaffinity", pid, tuple(cpus))
+        if not self._deliver("sched_setaffinity", pid, tuple(cpus)):
+            return
         allowed = self.k.settings[pid].get("allowed", [0, 1, 2, 3])
         for c in cpus:
             if not isinstance(c, int) or isinstance(c, bool):
